@@ -669,6 +669,16 @@ def check_handles(world, rec):
         except Exception:
             continue
         if kind == "point" and want is None:
+            # a point without any leaf (the zero gradient of a stationary point, x - x): a zero vector of the
+            # dimension of the instance, like every other evaluated point
+            dims = set()
+            for lab, leaf in world.leaf_obj.items():
+                if lab.startswith("p") and getattr(leaf, "_value", None) is not None:
+                    dims.add(len(np.asarray(leaf._value).reshape(-1)))
+            g = np.asarray(got, dtype=float).reshape(-1)
+            if dims and (len(g) not in dims or np.any(g != 0)):
+                world.violation("O-HANDLES", "zero-point-evaluates-to-a-vector-of-another-dimension",
+                                {"handle": name, "length": int(len(g)), "instance_dimension": sorted(dims)})
             continue
         err = compare_value(got, want)
         if err == float("inf"):
